@@ -62,6 +62,7 @@ template <typename T, typename Dirty, typename Eq> static void roundTrip(const c
     if (!threw && r.r_size() >= 4) gDeserialize(r, sentinel);
     out->line(Rec().str("k", "ser").str("type", type).i("off", off).i("used", used).raw("shape", shape).i("produced", produced).i("consumed", consumed)
                   .i("eq", (!threw && eq(v, w)) ? 1 : 0).i("sentinel", sentinel == 0xDEADBEEF ? 1 : 0).i("left", r.r_size()));
+    out->flush();
   }
 }
 template <typename T> static void rt(const char* type, const T& v, const T& dirty) { roundTrip(type, v, shapeOf(v), [&](T& w) { w = dirty; }, [](const T& a, const T& b) { return a == b; }); }
@@ -83,6 +84,7 @@ int main(int argc, char** argv) {
   galois::SharedMemSys G;
   int reps = thorough ? 40 : 8;
   for (int rep = 0; rep < reps; ++rep) {
+    out->flush();
     size_t big = rep == 0 ? 200000 : 50;
     rt<uint8_t>("uint8", (uint8_t)rng.next(), 7);
     rt<bool>("bool", rng.coin(), true);
